@@ -1,4 +1,5 @@
 import FxpVerif.Model.Store
+import FxpVerif.Model.Dtype
 /-!
 # Decidable checkers run by the driver on the implementation's observed outputs
 
@@ -81,5 +82,21 @@ def specSizes (signed : Bool) (vals : List Rat) (nword nfrac : Option Int) : Int
   match nword with
   | none => let f := min (64 - s - I) F0; (min (f + I + s) 64, f)
   | some w => (min w 64, min (w - s - I) F0)
+
+/-- C02: well-formedness of one produced object as observed on the implementation:
+codes in range, `n_int`, `upper`/`lower`/`precision` (through scale and bias), dtype spelling. -/
+def c02 (f : Fmt) (cx : Bool) (sc bi : Rat) (nint : Int) (upper lower prec : Rat) (dtype : String) (cs : List Int) : Bool :=
+  cs.all (fun c => decide (f.lo ≤ c ∧ c ≤ f.hi)) &&
+  decide (nint = f.nint) &&
+  decide (upper = sc * valueOf f f.hi + bi) &&
+  decide (lower = sc * valueOf f f.lo + bi) &&
+  decide (prec = sc * valueOf f 1) &&
+  decide (dtype.toList = renderFxp f cx)
+
+/-- C02: under saturate an out-of-range input of any magnitude is stored as the bound on its own side. -/
+def c02side (f : Fmt) (v : Rat) (c : Int) : Bool :=
+  (if valueOf f f.hi < v then decide (c = f.hi) else true) &&
+  (if v < valueOf f f.lo then decide (c = f.lo) else true) &&
+  decide (f.lo ≤ c ∧ c ≤ f.hi)
 
 end Fxp.Chk
